@@ -338,6 +338,48 @@ impl Gen {
         }
     }
 
+    /// Biased pattern: two related groups exist for a while, then an edge joins them and members of
+    /// both former groups mutate in the same tick with payloads that do not fit one message.
+    fn recipe_join_groups(&mut self) {
+        if self.prof.slots < 4 {
+            return;
+        }
+        let mut order: Vec<u8> = (0..self.prof.slots).collect();
+        for i in (1..order.len()).rev() {
+            let j = self.r.below(i + 1);
+            order.swap(i, j);
+        }
+        let (a, b, c, d) = (order[0], order[1], order[2], order[3]);
+        for s in [a, b, c, d] {
+            if !self.live[s as usize] {
+                self.steps.push(Step::Spawn { slot: s, kinds: vec![Kind::Big, Kind::A], marker: true });
+                self.live[s as usize] = true;
+            }
+        }
+        self.steps.push(Step::Point { slot: a, kind: Kind::Link, target: b });
+        self.steps.push(Step::Point { slot: c, kind: Kind::Link, target: d });
+        for _ in 0..self.r.range(1, 2) {
+            self.steps.push(Step::ServerFrame { tick: true, dt_ms: 16 });
+            for cl in 0..self.prof.clients {
+                self.network(cl);
+                self.steps.push(Step::ClientFrame { client: cl, dt_ms: 16 });
+                self.uplink(cl);
+            }
+        }
+        // join (b gets its first relationship; both ends are already part of a graph)
+        let (x, y) = if self.r.chance(50) { (b, c) } else { (d, a) };
+        self.steps.push(Step::Point { slot: x, kind: Kind::Link, target: y });
+        if self.r.chance(30) {
+            self.steps.push(Step::ServerFrame { tick: false, dt_ms: 16 });
+        }
+        for s in [a, b, c, d] {
+            if self.r.chance(75) {
+                let extra = self.r.pick(&[30u16, 60, 100, 180, 400, 700]);
+                self.steps.push(Step::Mutate { slot: s, kind: Kind::Big, extra });
+            }
+        }
+    }
+
     fn struct_op(&mut self, slot: u8) {
         self.last_slot = slot;
         self.last_struct = true;
@@ -510,6 +552,9 @@ impl Gen {
             let nops = self.r.weighted(&[3, 6, 3, 1]);
             for _ in 0..nops {
                 self.server_op();
+            }
+            if self.focus == Focus::Packing && self.prof.app.sync_related && self.r.chance(10) {
+                self.recipe_join_groups();
             }
             if self.en_cevents && self.r.chance(25) {
                 self.client_emit();
